@@ -306,6 +306,8 @@ class LedgerDevice:
         ins = apdu[1]
         cfg = self.cfg
         if ins == INS_MODE:
+            if cfg.get("mode_error"):
+                raise _SW(cfg["mode_error"])
             return (bytes([CLA, cfg.get("mode_byte", MODE_BOOTLOADER)]), SW_OK)
         if ins == INS_IS_ONBOARD:
             if cfg.get("onboard_error"):
